@@ -131,6 +131,7 @@ M = [
     ("m61", PER, "        if self.gamma == 1.0 and self.period < 2:\n            raise ValueError(\"Period must be at least 2 for undiscounted case\")\n", "", ["C20"]),
     ("m62", CORE, "        self.jax_double_precision = self.config.jax_double_precision\n        if self.jax_double_precision:\n            jax.config.update(\"jax_enable_x64\", True)\n",
      "        self.jax_double_precision = self.config.jax_double_precision\n", ["C20"]),
+    ("m68", CORE, "        return initial_values.astype(jnp.result_type(float))\n", "        return initial_values\n", ["C06", "C09", "C20"]),
     ("m63", LG, "    decimal_places = max(min(decimal_places, max_decimals), 0)", "    decimal_places = min(decimal_places, max_decimals)", ["C20"]),
     # ---------------- negative controls (property-preserving refactors)
     ("n01", RVI, "        self.gain = new_values[-1]\n", "        self.gain = new_values[0]\n", ["C04", "C08", "C03"]),
